@@ -1011,6 +1011,12 @@ func (b *BaseStore) LoadFromSnapshot(ctx context.Context) error {
 			continue
 		}
 
+		// (see Load) Join does not walk through the entries the log already
+		// holds: only the missing ones are handed to it
+		if _, held := oplog.Get(e.GetHash()); held {
+			continue
+		}
+
 		canonical, err := b.IO().Write(ctx, b.IPFS(), e, nil)
 		if err != nil {
 			return fmt.Errorf("unable to check the address of entry %s: %w", e.GetHash().String(), err)
